@@ -64,4 +64,38 @@ func init() {
 	addMutant(Mutant{Name: "equiv-errorf-helper-msg-inline", Prop: "C15", File: "parser/parser.go", Equivalent: true,
 		Old: "	msg := fmt.Sprintf(\"line %d: no prefix parse function for %s found\", p.curToken.LineNumber, t)\n	p.errors = append(p.errors, msg)",
 		New: "	p.errors = append(p.errors, fmt.Sprintf(\"line %d: no prefix parse function for %s found\", p.curToken.LineNumber, t))"})
+	// ---- C03 ----
+	addMutant(Mutant{Name: "revert-comment-eof", Prop: "C03", File: "parser/parser.go",
+		Old: "for p.curToken.Type != token.E_END && !p.curTokenIs(token.EOF) {", New: "for p.curToken.Type != token.E_END {", Expect: "R2"})
+	addMutant(Mutant{Name: "revert-call-nil-left", Prop: "C03", File: "parser/parser.go",
+		Old: "	if function == nil {\n		// the left operand failed to parse; its error is already recorded\n		return nil\n	}\n", New: "", Expect: "R5"})
+	addMutant(Mutant{Name: "revert-index-nil-left", Prop: "C03", File: "parser/parser.go",
+		Old: "	if left == nil {\n		// the left operand failed to parse; its error is already recorded\n		return nil\n	}\n", New: "", Expect: "R5"})
+	addMutant(Mutant{Name: "revert-array-printer-guard", Prop: "C03", File: "ast/array_literal.go",
+		Old: "		if el != nil {\n			elements = append(elements, el.String())\n		}", New: "		elements = append(elements, el.String())", Expect: "R5"})
+	addMutant(Mutant{Name: "revert-for-printer-guard", Prop: "C03", File: "ast/for_expression.go",
+		Old: "	if fe.Iterable != nil {\n		out.WriteString(fe.Iterable.String())\n	}", New: "	out.WriteString(fe.Iterable.String())", Expect: "R5"})
+	addMutant(Mutant{Name: "revert-elseif-printer-guard", Prop: "C03", File: "ast/if_expression.go",
+		Old: "		if elseIf.Condition != nil {\n			out.WriteString(elseIf.Condition.String())\n		}", New: "		out.WriteString(elseIf.Condition.String())", Expect: "R5"})
+	addMutant(Mutant{Name: "revert-hash-printer-guard", Prop: "C03", File: "ast/hash_literal.go",
+		Old: "		if key != nil {\n			k = key.String()\n		}", New: "		k = key.String()", Expect: "R5"})
+	addMutant(Mutant{Name: "revert-index-printer-guard", Prop: "C03", File: "ast/index_expression.go",
+		Old: "	if ie.Index != nil {\n		out.WriteString(ie.Index.String())\n	}", New: "	out.WriteString(ie.Index.String())", Expect: "R5"})
+	addMutant(Mutant{Name: "revert-readchar-pin", Prop: "C03", File: "lexer/lexer.go",
+		Old: "		l.ch = 0\n		l.position = len(l.input)\n		l.readPosition = len(l.input) + 1\n		return\n	}\n\n	l.ch = l.input[l.readPosition]\n",
+		New: "		l.ch = 0\n	} else {\n		l.ch = l.input[l.readPosition]\n	}\n", Expect: "R8"})
+	addMutant(Mutant{Name: "block-loop-no-eof", Prop: "C03", File: "parser/parser.go",
+		Old: "for !p.curTokenIs(token.RBRACE) && !p.curTokenIs(token.EOF) {", New: "for !p.curTokenIs(token.RBRACE) {", Expect: "R2"})
+	addMutant(Mutant{Name: "readstring-loop-not-eof-safe", Prop: "C03", File: "lexer/lexer.go",
+		Old: "func (l *Lexer) readBString() string {\n	position := l.position + 1\n	for l.ch != 0 {", New: "func (l *Lexer) readBString() string {\n	position := l.position + 1\n	for l.ch != '`' || l.position < position {", Expect: "R1"})
+	addMutant(Mutant{Name: "expectpeek-result-ignored", Prop: "C03", File: "parser/parser.go",
+		Old: "	if !p.expectPeek(token.RPAREN) {\n		return nil\n	}\n\n	return exp\n}", New: "	p.expectPeek(token.RPAREN)\n\n	return exp\n}", Expect: "R4"})
+	addMutant(Mutant{Name: "prefix-recursion-without-consuming", Prop: "C03", File: "parser/parser.go",
+		Old: "	p.nextToken()\n	expression.Right = p.parseExpression(PREFIX)", New: "	expression.Right = p.parseExpression(PREFIX)", Expect: "R3"})
+	addMutant(Mutant{Name: "unchecked-assertion-on-left", Prop: "C03", File: "parser/parser.go",
+		Old: "		ff, ok := ss.Left.(*ast.Identifier)\n		if ok {", New: "		ff := ss.Left.(*ast.Identifier)\n		ok := ff != nil\n		if ok {", Expect: "R6"})
+	addMutant(Mutant{Name: "equiv-comment-loop-curtokenis", Prop: "C03", File: "parser/parser.go", Equivalent: true,
+		Old: "for p.curToken.Type != token.E_END && !p.curTokenIs(token.EOF) {", New: "for !p.curTokenIs(token.E_END) && !p.curTokenIs(token.EOF) {"})
+	addMutant(Mutant{Name: "equiv-guard-early-continue", Prop: "C03", File: "ast/array_literal.go", Equivalent: true,
+		Old: "		if el != nil {\n			elements = append(elements, el.String())\n		}", New: "		if el == nil {\n			continue\n		}\n		elements = append(elements, el.String())"})
 }
